@@ -657,6 +657,28 @@ func generate(c *drv.Ctx) {
 			idx++
 		}
 	}
+	// (i'') entries whose name has the API default's name as a proper prefix ("a/xy" vs default "a/x", like
+	//       application/json-patch+json vs application/json): the default is still added
+	prefixPool := []entry{{mt{"a", "xy"}, 0}, {mt{"a", "xy"}, 1}, {mt{"b", "yz"}, 0}, {mt{"b", "x"}, 0}}
+	for _, l := range lists(prefixPool, 2) {
+		hasPrefix := false
+		for _, e := range l {
+			hasPrefix = hasPrefix || e.S == "xy" || e.S == "yz"
+		}
+		if !hasPrefix {
+			continue
+		}
+		for _, df := range defaults {
+			d := descriptor(l, df, append(append([]mt{}, all...), mt{"a", "xy"}), []string{"op", "global"}[idx%2])
+			d["exhaustive"] = true
+			if idx%3 == 2 {
+				d["api"] = "generated"
+			}
+			d["rot"] = idx
+			c.Case(d)
+			idx++
+		}
+	}
 	c.Extra["exhaustive_apis"] = idx
 	c.Extra["exhaustive_requests_per_api"] = len(exhaustiveHeaders()) * len(bodies)
 	// (ii) seeded: larger lists, other parameter spellings on entries, random header spellings, all methods,
